@@ -926,7 +926,7 @@ fn sem_len(sem: &Sem, world: &WorldSpec, t: TargetRef) -> usize {
 fn c01(tier: Tier, seed: u64) -> i32 {
 	let mut ctx = CheckCtx::new("C01", "exploration", tier, seed);
 	ctx.rule = "CONC: programs of 1-4 logical threads (each an OS thread, one running at a time), 1-3 acquisitions each over a pool of 2-6 targets (single locks; boxed / ref / owned / retrying collections over permutations and subsets of 2-5 shared leaves, nesting <= 2, Poisonable wrappers), read and write, guard / try / scoped APIs, yields inside sections, both RwLock wake policies; the schedule is generated data (choice bytes, then run-to-block). Oracle: no state in which every unfinished thread waits (deadlock), no thread waits for a lock it holds itself, no no-progress cycle; every execution ends with all threads finished and all locks free. Tiny programs are additionally explored over ALL schedules. Non-trivial = some thread found its blocking request ungrantable (it waited) or a retrying acquisition rolled back; distinct = hash(world, programs, choices taken).".into();
-	let cfg = ConcCfg { min_threads: 1, ..ConcCfg::default() };
+	let cfg = conc_profile("C01").unwrap();
 	let nontrivial = |_case: &ConcCase, r: &RunResult| r.waited || has(r, "rollback");
 	let e = ConcEval { prop: "C01", nontrivial: &nontrivial, extra: None };
 	let n = tier.pick(60_000, 2_000_000);
@@ -1672,7 +1672,13 @@ pub fn seq_profile(prop: &str) -> Option<(SeqCfg, Opts)> {
 /// generator configuration of the CONC campaign of a property
 pub fn conc_profile(prop: &str) -> Option<ConcCfg> {
 	match prop {
-		"C01" => Some(ConcCfg { min_threads: 1, ..ConcCfg::default() }),
+		"C01" => {
+			let mut cfg = ConcCfg { min_threads: 1, ..ConcCfg::default() };
+			// some member lists keep their duplicates: the checked constructor must
+			// reject them, otherwise one thread waits for a lock it holds itself
+			cfg.world.p_allow_dup = 50;
+			Some(cfg)
+		}
 		"C02" | "C05" | "C04" | "C03" | "C08" => Some(ConcCfg::default()),
 		"C10" => {
 			let mut cfg = ConcCfg::default();
